@@ -1,6 +1,30 @@
 import Driver.Parse
+import Fpy.Model.Num.Engine
 namespace Fpy.Drv
 open Fpy
+
+def operandNV : Operand → NV
+  | .flt v => .fv v
+  | .real x => .fv (.fin x)
+  | .int i => .fv (.fin (RF.ofInt i))
+  | .frac n d => NV.ofRat n d
+
+def opOfName : String → Option Op
+  | "add" => some .add | "sub" => some .sub | "mul" => some .mul | "div" => some .div
+  | "fma" => some .fma | "neg" => some .neg | "fabs" => some .fabs | "sqrt" => some .sqrt
+  | "copysign" => some .copysign | "fdim" => some .fdim | "fmin" => some .fmin | "fmax" => some .fmax
+  | "ceil" => some .ceil | "floor" => some .floor | "trunc" => some .trunc | "roundint" => some .roundint
+  | "nearbyint" => some .nearbyint | "round" => some .round | "round_exact" => some .roundExact
+  | _ => none
+
+def showNV : Except Err NV → String
+  | .error e => s!"err {errName e}"
+  | .ok (.fv v) => s!"ok {canonFV v} # raw={rawFV v}"
+  | .ok (.q n d) =>
+    -- canonical by VALUE: a dyadic Fraction prints like the Float of the same value
+    match NV.ofRat n d with
+    | .fv v => s!"ok {canonFV v} # frac {n}/{d}"
+    | .q n d => s!"ok frac {n}/{d} #"
 
 /-- number-layer operations; returns `none` if the op is not handled here -/
 def handleNum (op : String) : Option (P String) :=
@@ -16,6 +40,17 @@ def handleNum (op : String) : Option (P String) :=
       match x.round p n rm k r exact with
       | .error e => pure s!"err {errName e}"
       | .ok (y, fl) => pure (showRes (.ok ⟨.fin y, fl⟩))
+  | "op" => some do   -- op <name> <ctx> <operand>*
+      let name ← tok
+      let C ← pCtx
+      let rest ← get
+      let mut args : List NV := []
+      for _ in rest do
+        let o ← pOperand
+        args := args ++ [operandNV o]
+      match opOfName name with
+      | none => pure "bad-op"
+      | some op => pure (showNV (opEval C op args))
   | _ => none
 
 end Fpy.Drv
